@@ -338,6 +338,23 @@ static void done_destructor(void *v)
 	}
 	printf("T%d THREAD-EXIT\n", me_);
 	VT[me_].state = ST_DONE;
+	/* a process-directed SIGCHLD that was still pending on this thread is not lost with it: the kernel delivers it to another thread */
+	if (VT[me_].pending_sig[SIGCHLD]) {
+		int u, tgt = -1;
+		for (u = 0; u < MT_MAXT && tgt < 0; u++)
+			if (VT[u].state != ST_UNUSED && VT[u].state != ST_DONE && !VT[u].sigmask_all)
+				tgt = u;
+		for (u = 0; u < MT_MAXT && tgt < 0; u++)
+			if (VT[u].state != ST_UNUSED && VT[u].state != ST_DONE)
+				tgt = u;
+		VT[me_].pending_sig[SIGCHLD] = 0;
+		if (tgt >= 0) {
+			VT[tgt].pending_sig[SIGCHLD] = 1;
+			printf("T%d SIGNAL-MOVED %d to=T%d\n", me_, SIGCHLD, tgt);
+			if (VT[tgt].state == ST_WAIT)
+				VT[tgt].seen_activity = activity - 1;
+		}
+	}
 	for (t = 0; t < MT_MAXT; t++)
 		if (VT[t].state == ST_JOIN && VT[t].blocked_on == &VT[me_])
 			VT[t].state = ST_RUNNABLE;
@@ -575,6 +592,12 @@ void mt_send_signal(int signum, int t)
 		if (n == 0)
 			return;
 		t = sched_mode ? cand[choose(n, 's')] : cand[rnd() % n];
+	}
+	if (signum == SIGCHLD && sig_handler[signum] == NULL && !VT[t].sigmask_all) {
+		/* a signal whose disposition is "ignore" (SIGCHLD's default action) is discarded when it is generated: installing a handler
+		 * afterwards does not bring it back (it stays pending only while blocked) */
+		printf("T%d SIGNAL-DISCARDED %d to=T%d\n", me_, signum, t);
+		return;
 	}
 	VT[t].pending_sig[signum] = 1;
 	printf("T%d SIGNAL-SENT %d to=T%d\n", me_, signum, t);
